@@ -68,7 +68,11 @@ def View.total (v : View) : Nat := (v.ss.map (·.charged)).foldl (· + ·) 0
 
 def vstep (v : View) : FileD.Stream.Op → View
   | .put s _ _ => v.upd s fun x => { x with pending := x.pending + 1 }
-  | .timeout s => v.upd s fun x => { x with pending := x.pending + 1 }
+  | .timeout s =>
+    -- tryUnblock installs its event as first AND last: over a queued event it would erase it
+    let x := v.ss[s]?.getD {}
+    let v := if x.pending ≠ 0 then v.fail "timeout-over-queued-event" else v
+    v.upd s fun x => { x with pending := x.pending + 1 }
   | .charge s =>
     let x := v.ss[s]?.getD {}
     let v := if x.charged ≠ 0 then v.fail "charged-twice" else v
